@@ -44,6 +44,11 @@ def DecKind.content (k : DecKind) (raw : Bytes) : Bytes :=
   | .identity => raw
   | .broken => []
 
+/-- end-stream content as reported: raw unless the message's compressed flag (bit 0) is set, in
+which case it goes through the negotiated decompressor (repaired code, F09) -/
+def DecKind.contentF (k : DecKind) (flags : Nat) (raw : Bytes) : Bytes :=
+  if flags % 2 == 1 then k.content raw else raw
+
 def two32 : Nat := 4294967296
 
 /-- `int(d.expecting - uint32(d.actual))` with Go's uint32 wrap-around -/
@@ -70,7 +75,7 @@ def dComplete (c : DCfg) (s : DSt) (d : Bytes) : DSt × List DEv :=
     let evs2 := match s.eos with
       | none => []
       | some buf =>
-        let content := c.dec.content (buf ++ d)
+        let content := c.dec.contentF ((s.env.map (·.flags)).getD 0) (buf ++ d)
         if content.isEmpty then [] else [DEv.eos content]
     ({ s with env := none, expecting := 0, actual := 0, eos := none }, evs ++ evs2)
 
